@@ -28,7 +28,7 @@ claim("C10", "R10,R1", "field-coverage effect analysis of Reset/Set/newWithChunk
       "Decides that every field of the pooled builder state has a re-initialisation point, truncated slices are not re-extended over stale elements, the builder returns to the pool only after a successful reset, and the build path writes no package-level state. Does not decide 're-initialised before first read on every path'.", TB, "DESIGN.md §3 R10 R1, §4 C10")
 claim("C11", "R1,R2,R3,R4,R5", "put-count typestate with bottom-up callee summaries (pool ownership) + must-hold lockset analysis with caller-propagated requirements + atomic-only field check over go/ssa",
       "Decides single ownership of pooled scratch contexts, that tabled shared fields are only accessed under their mutex, and that the section registry is written only at init. Does not prove data-race freedom.", TB, "DESIGN.md §3 R1 R2, §4 C11")
-claim("C16", "R21,R22,R2,R6", "data+control-dependence taint (post-dominator based) from per-call arguments to shared cache stores with interprocedural summaries; reference-taking must-pass-through on hand-out paths; eviction guard truth table; who-may-call for Close; lockset",
+claim("C16", "R21,R22,R23,R2,R6", "data+control-dependence taint (post-dominator based) from per-call arguments to shared cache stores with interprocedural summaries; reference-taking must-pass-through on hand-out paths; eviction guard truth table; who-may-call for Close; lockset",
       "Decides that cache entry content is independent of the per-call exclusion bitmap, that every hand-out takes a reference, that eviction happens only at zero references after removal from the map, and that only cacheEntry.close closes a cached index. Does not decide timing of the monitor goroutine.", TB, "DESIGN.md §3 R21 R22, §4 C16")
 claim("C17", "R6,R7", "exit-discipline path analysis (cleanup before every failure exit, completion calls tested before every success exit, ordering) with dominance-based nil-ness of error values; dropped-error enumeration with scope by call-graph reachability; sticky-writer precondition; section-interface sibling agreement",
       "Decides that Persist, WriteTo and Merge clean up (close+remove) on every failure exit, report success only after body, footer, Flush and Close succeeded in order, and that no write error is dropped. Does not decide that the OS reports the fault or file content.", TB, "DESIGN.md §3 R6 R7, §4 C17")
